@@ -10,10 +10,10 @@ import (
 	"github.com/bluenviron/gortsplib/v5/pkg/description"
 	"github.com/bluenviron/gortsplib/v5/pkg/format"
 
-	"github.com/bluenviron/mediamtx/internal/conf"
 	"github.com/bluenviron/mediamtx/internal/logger"
 	"github.com/bluenviron/mediamtx/internal/stream"
 	"github.com/bluenviron/mediamtx/internal/unit"
+	"github.com/bluenviron/mediamtx/internal/zzverif/pmlib"
 	"github.com/bluenviron/mediamtx/internal/zzverif/vexplore"
 	"github.com/bluenviron/mediamtx/zzverif/vsched"
 )
@@ -25,8 +25,9 @@ func (nl) Log(logger.Level, string, ...any) {}
 type fixture struct {
 	strm   *stream.Stream
 	ss     *stream.SubStream
-	mv, ma *description.Media
-	fv, fa format.Format
+	mv, ma  *description.Media
+	fv, fa  format.Format
+	fb      format.Format // second format of the audio media
 }
 
 func newFixture(queue int) *fixture {
@@ -34,11 +35,13 @@ func newFixture(queue int) *fixture {
 	f.fv = &format.H264{PayloadTyp: 96, PacketizationMode: 1}
 	f.fa = &format.G711{PayloadTyp: 8, MULaw: false, SampleRate: 8000, ChannelCount: 1}
 	f.mv = &description.Media{Type: description.MediaTypeVideo, Formats: []format.Format{f.fv}}
-	f.ma = &description.Media{Type: description.MediaTypeAudio, Formats: []format.Format{f.fa}}
+	f.fb = &format.G711{PayloadTyp: 0, MULaw: true, SampleRate: 8000, ChannelCount: 1}
+	f.ma = &description.Media{Type: description.MediaTypeAudio, Formats: []format.Format{f.fa, f.fb}}
 	vsched.Name(f.mv, "Mv")
 	vsched.Name(f.ma, "Ma")
 	vsched.Name(f.fv, "Fv")
 	vsched.Name(f.fa, "Fa")
+	vsched.Name(f.fb, "Fb")
 	desc := &description.Session{Medias: []*description.Media{f.mv, f.ma}}
 	f.strm = &stream.Stream{OrigDesc: desc, WriteQueueSize: queue, RTPMaxPayloadSize: 1450, ReplaceNTP: true, Parent: nl{}}
 	if err := f.strm.Initialize(); err != nil {
@@ -56,6 +59,8 @@ func (f *fixture) write(kind byte, id int) {
 	vsched.Log("begin %c%d", kind, id)
 	if kind == 'V' {
 		f.ss.WriteUnit(f.mv, f.fv, &unit.Unit{PTS: int64(id) * 3000, Payload: unit.PayloadH264{{1, byte(id)}}})
+	} else if kind == 'B' {
+		f.ss.WriteUnit(f.ma, f.fb, &unit.Unit{PTS: int64(id) * 160, Payload: unit.PayloadG711{byte(id), byte(id), byte(id)}})
 	} else {
 		f.ss.WriteUnit(f.ma, f.fa, &unit.Unit{PTS: int64(id) * 160, Payload: unit.PayloadG711{byte(id), byte(id)}})
 	}
@@ -88,6 +93,17 @@ func (f *fixture) reader(name string, video, audio bool) *stream.Reader {
 			vsched.Log("got %s A%d", name, p[0])
 			return nil
 		})
+		// a second format of the same media
+		r.OnData(f.ma, f.fb, func(u *unit.Unit) error {
+			vsched.Yield()
+			p, ok := u.Payload.(unit.PayloadG711)
+			if !ok || len(p) != 3 || p[0] != p[1] {
+				vsched.Log("got %s B? modified payload %v", name, u.Payload)
+				return nil
+			}
+			vsched.Log("got %s B%d", name, p[0])
+			return nil
+		})
 	}
 	return r
 }
@@ -109,12 +125,16 @@ func bodyOrder(q int, writes string) func() {
 			vsched.Close(d1)
 		})
 		vsched.Go(func() {
-			nv, na := 0, 0
+			nv, na, nb := 0, 0, 0
 			for _, k := range writes {
-				if k == 'V' {
+				switch k {
+				case 'V':
 					nv++
 					f.write('V', nv)
-				} else {
+				case 'B':
+					nb++
+					f.write('B', nb)
+				default:
 					na++
 					f.write('A', na)
 				}
@@ -161,107 +181,6 @@ func bodyRemove(q int) func() {
 	}
 }
 
-// scenario 3: an always-available stream (one Stream outlives its publishers): publisher A is replaced by
-// publisher B while A is still writing. Units of A whose write began after the replacement completed are not
-// units "written by the current publisher" and must not reach the reader.
-func bodyReplace() {
-	fa := &format.G711{PayloadTyp: 8, MULaw: false, SampleRate: 8000, ChannelCount: 1}
-	ma := &description.Media{Type: description.MediaTypeAudio, Formats: []format.Format{fa}}
-	strm := &stream.Stream{
-		AlwaysAvailable: true, ReplaceNTP: true, WriteQueueSize: 8, RTPMaxPayloadSize: 1450, Parent: nl{},
-		AlwaysAvailableTracks: []conf.AlwaysAvailableTrack{{Codec: conf.CodecG711, SampleRate: 8000, ChannelCount: 1}},
-	}
-	if err := strm.Initialize(); err != nil {
-		panic(err)
-	}
-	om := strm.OrigDesc.Medias[0]
-	vsched.Name(om, "Mo")
-	vsched.Name(om.Formats[0], "Fo")
-	mkSub := func(tag string) (*stream.SubStream, *description.Media, format.Format) {
-		f := &format.G711{PayloadTyp: 8, MULaw: false, SampleRate: 8000, ChannelCount: 1}
-		m := &description.Media{Type: description.MediaTypeAudio, Formats: []format.Format{f}}
-		vsched.Name(m, "M"+tag)
-		vsched.Name(f, "F"+tag)
-		return &stream.SubStream{Stream: strm, InDesc: &description.Session{Medias: []*description.Media{m}}, UseRTPPackets: false}, m, f
-	}
-	_, _ = fa, ma
-	r := &stream.Reader{Parent: nl{}}
-	vsched.Name(r, "R")
-	r.OnData(om, om.Formats[0], func(u *unit.Unit) error {
-		vsched.Yield()
-		if p, ok := u.Payload.(unit.PayloadG711); ok && len(p) == 2 && p[0] >= 'A' && p[0] <= 'Z' {
-			vsched.Log("got R %c%d", p[0], p[1])
-		}
-		return nil
-	})
-	strm.AddReader(r)
-	ssA, mA, fA := mkSub("a")
-	if err := ssA.Initialize(); err != nil {
-		panic(err)
-	}
-	vsched.Log("current A")
-	d1 := make(chan struct{})
-	d2 := make(chan struct{})
-	vsched.Go(func() {
-		defer vsched.Close(d1)
-		for i := 1; i <= 2; i++ {
-			vsched.Log("begin A%d", i)
-			ssA.WriteUnit(mA, fA, &unit.Unit{PTS: int64(i) * 160, Payload: unit.PayloadG711{'A', byte(i)}})
-			vsched.Log("end A%d", i)
-		}
-	})
-	vsched.Go(func() {
-		defer vsched.Close(d2)
-		ssB, mB, fB := mkSub("b")
-		if err := ssB.Initialize(); err != nil {
-			panic(err)
-		}
-		vsched.Log("current B")
-		vsched.Log("begin B1")
-		ssB.WriteUnit(mB, fB, &unit.Unit{PTS: 160, Payload: unit.PayloadG711{'B', 1}})
-		vsched.Log("end B1")
-	})
-	vsched.Recv(d1)
-	vsched.Recv(d2)
-	vsched.WaitIdle()
-	vsched.Log("quiescent")
-	strm.RemoveReader(r)
-	strm.Close()
-}
-
-func checkReplace(o *vsched.Outcome) (string, string) {
-	tr := strings.Join(o.Trace, ", ")
-	if o.Failure != "" {
-		return "sched-" + strings.SplitN(o.Failure, ":", 2)[0], o.Failure + " | " + tr
-	}
-	replaced := -1
-	begin := map[string]int{}
-	last := map[byte]int{}
-	for i, l := range o.Trace {
-		switch {
-		case l == "current B":
-			replaced = i
-		case strings.HasPrefix(l, "begin "):
-			begin[l[6:]] = i
-		case strings.HasPrefix(l, "got R "):
-			u := l[6:]
-			var id int
-			fmt.Sscanf(u[1:], "%d", &id)
-			if id <= last[u[0]] {
-				return "order-or-duplicate", "unit " + u + " delivered out of order or twice | " + tr
-			}
-			last[u[0]] = id
-			if u[0] == 'A' && replaced >= 0 && begin[u] > replaced {
-				return "unit-of-replaced-publisher", "unit " + u + " was written by a publisher that had already been replaced and still reached the reader | " + tr
-			}
-		}
-	}
-	if o.Trace[len(o.Trace)-1] != "quiescent" {
-		return "incomplete", "scenario did not reach quiescence | " + tr
-	}
-	return "", ""
-}
-
 func check(o *vsched.Outcome) (string, string) {
 	tr := strings.Join(o.Trace, ", ")
 	if o.Failure != "" {
@@ -270,6 +189,7 @@ func check(o *vsched.Outcome) (string, string) {
 	type rs struct {
 		added, removed bool
 		lastV, lastA   int
+		lastB          int
 		got            int
 		mustGet        int // writes that began after the reader was attached and before it was removed
 		mayGet         int // writes that ended (or began) while it could have been attached
@@ -310,7 +230,7 @@ func check(o *vsched.Outcome) (string, string) {
 			if r.removed {
 				return "callback-after-remove", "callback of " + name + " ran after RemoveReader returned | " + tr
 			}
-			if name == "R1" && kind == 'A' {
+			if name == "R1" && kind != 'V' {
 				return "unsubscribed-format", "R1 (video only) received an audio unit | " + tr
 			}
 			if kind == 'V' {
@@ -318,6 +238,11 @@ func check(o *vsched.Outcome) (string, string) {
 					return "order-or-duplicate", fmt.Sprintf("%s got V%d after V%d | %s", name, id, r.lastV, tr)
 				}
 				r.lastV = id
+			} else if kind == 'B' {
+				if id <= r.lastB {
+					return "order-or-duplicate", fmt.Sprintf("%s got B%d after B%d | %s", name, id, r.lastB, tr)
+				}
+				r.lastB = id
 			} else {
 				if id <= r.lastA {
 					return "order-or-duplicate", fmt.Sprintf("%s got A%d after A%d | %s", name, id, r.lastA, tr)
@@ -380,12 +305,12 @@ func main() {
 		scn = append(scn, &vexplore.Scenario{Name: name, Desc: desc, Body: body, Check: check,
 			QuickBound: qb, ThoroughBound: tb, Horizon: 5000, Bg: []string{"dumper.go"}})
 	}
-	add("order-q2", "R2(video+audio) attached, R1(video) attaching concurrently, writer V A V V, queue 2", bodyOrder(2, "VAVV"), 2, 3)
+	add("order-q2", "R2(video+audio) attached, R1(video) attaching concurrently, writer V A B V (A and B are two formats of one media), queue 2", bodyOrder(2, "VABV"), 2, 3)
 	add("order-q1", "same, queue 1, writer V V A", bodyOrder(1, "VVA"), 2, 3)
-	add("order-q4", "same, queue 4, writer V A V A V", bodyOrder(4, "VAVAV"), 1, 2)
+	add("order-q4", "same, queue 4, writer V A B A V", bodyOrder(4, "VABAV"), 1, 2)
 	add("remove-q2", "RemoveReader(R2) concurrent with writer V A V, queue 2", bodyRemove(2), 2, 3)
 	scn = append(scn, &vexplore.Scenario{Name: "replace-publisher", Desc: "always-available stream: publisher A (2 writes) is replaced by B (1 write) concurrently; reader attached",
-		Body: bodyReplace, Check: checkReplace, QuickBound: 2, ThoroughBound: 3, Horizon: 8000,
+		Body: pmlib.ReplaceBody, Check: pmlib.CheckReplace, QuickBound: 2, ThoroughBound: 3, Horizon: 8000,
 		Bg: []string{"dumper.go", "stream/offline_sub_stream_track.go"}})
 	vexplore.Main("C17", scn, []string{
 		"payload alphabet: H.264 non-IDR NALU {1,id} and G.711 samples {id,id} (identity remux); remux content is C22's subject",
